@@ -12,7 +12,8 @@ Local Open Scope R_scope.
 Definition RopsP (ndtri npdf : R -> R) : ops R :=
   mkops R Rplus Rminus Rmult Rdiv Ropp sqrt (fun x => x * x) 0 1 2 (1 / 2)
         ln exp (fun x => ln (1 + x)) Rmax INR (fun x => x) (fun a b => (a, b))
-        10 (fun x => ln x / ln 10) ndtri npdf.
+        10 (fun x => ln x / ln 10) ndtri npdf
+        4 (- (1 / 2) * ln (2 * PI)) (fun x => x) (fun a _ => a) (fun x => x).
 Definition Rops : ops R := RopsP (fun x => x) (fun x => x).
 
 Notation rmsg := (msg (T := R)).
@@ -182,17 +183,14 @@ Qed.
 (* densities                                                            *)
 
 (* natural_logpdf of a NormalMessage: log_base_measure + eta . t(x) - log_partition(eta) *)
-Definition normal_logpdf (mu sg x : R) : R :=
-  match rto FNormal [mu; sg] with
-  | [e1; e2] => - (1 / 2) * ln (2 * PI) + (e1 * x + e2 * (x * x)) - (- (e1 * e1) / 4 / e2 - ln (- 2 * e2) / 2)
-  | _ => 0
-  end.
+(* the model's own natural_logpdf (the definition compared bit-for-bit with m.logpdf(x)) over the reals *)
+Definition normal_logpdf (mu sg x : R) : R := natural_logpdf Rops FNormal [mu; sg] x false.
 
 Lemma normal_logpdf_closed (mu sg x : R) : 0 < sg ->
   normal_logpdf mu sg x = - ln sg - (1 / 2) * ln (2 * PI) - (x - mu) * (x - mu) / (2 * (sg * sg)).
 Proof.
   intro H. unfold normal_logpdf. cbn.
-  replace (-2 * (- (1 / (sg * sg)) / 2)) with (/ (sg * sg)) by (field; lra).
+  replace (- (2) * (- (1 / (sg * sg)) / 2)) with (/ (sg * sg)) by (field; lra).
   rewrite ln_Rinv by (apply Rmult_lt_0_compat; assumption). rewrite (ln_mult sg sg) by assumption.
   field. lra.
 Qed.
@@ -380,3 +378,178 @@ Section ModelDet.
     exists D. unfold Model.factor, transform_det in *. cbn [c0 RopsP oadd]. rewrite LD. auto.
   Qed.
 End ModelDet.
+
+(* ------------------------------------------------------------------ *)
+(* full message statements for NormalMessage (parameters, class, id, limits, shape AND log_norm) *)
+Lemma normal_div_mul_partial (a b : rmsg) : normal_valid a -> nvalid b -> length (elems a) = length (elems b) ->
+  let r := b_div Rops (b_sum Rops a [b]) b in
+  fam r = FNormal /\ bmeta r = bmeta a /\ elems r = elems a /\ lognorm r = - lognorm b.
+Proof.
+  intros Va Vb L r. destruct (normal_sum_additive a b Va Vb) as [_ [Fab _]].
+  assert (F : fam a = FNormal) by apply Va.
+  repeat split.
+  - unfold r, b_div. rewrite (normal_not_fixed _ Fab). exact Fab.
+  - unfold r. rewrite b_div_bmeta, b_sum_bmeta. reflexivity.
+  - apply normal_div_mul_elems; assumption.
+  - unfold r, b_div. rewrite (normal_not_fixed _ Fab). cbn [lognorm]. unfold b_sum. rewrite (normal_not_fixed a F).
+    cbn [lognorm c0 osub Rops RopsP]. ring.
+Qed.
+
+Lemma normal_pow_add_partial (a : rmsg) (j k : R) : normal_valid a -> 0 < j -> 0 < k ->
+  let l := b_sum Rops (b_pow Rops a j) [b_pow Rops a k] in
+  let r := b_pow Rops a (j + k) in
+  fam l = fam r /\ bmeta l = bmeta r /\ elems l = elems r /\ lognorm l = 0 /\ lognorm r = (j + k) * lognorm a.
+Proof.
+  intros Va J K l r. destruct (normal_pow_linear a j Va J) as [_ [Fj _]].
+  assert (F : fam a = FNormal) by apply Va.
+  repeat split.
+  - unfold l, r, b_sum, b_pow. rewrite (normal_not_fixed a F). cbn [fam is_fixed]. rewrite F. reflexivity.
+  - unfold l, r. rewrite b_sum_bmeta, !b_pow_bmeta. reflexivity.
+  - apply normal_pow_add_elems; assumption.
+  - unfold l, b_sum. rewrite (normal_not_fixed _ Fj). reflexivity.
+  - unfold r, b_pow. rewrite (normal_not_fixed a F). reflexivity.
+Qed.
+
+(* zeros_like of a NormalMessage is the NaturalNormal with natural parameters 0: the unit of the product *)
+Lemma vadd_zero_zero_R (u : list R) : vadd Rops u (vscale Rops 0 (vscale Rops 0 u)) = u.
+Proof. induction u as [|x u IH]; cbn; [reflexivity|]. f_equal; [ring | exact IH]. Qed.
+
+Lemma normal_zeros (a : rmsg) : normal_valid a ->
+  fam (b_zeros Rops a) = FNatural /\ bmeta (b_zeros Rops a) = bmeta a
+  /\ rnat (b_zeros Rops a) = map (map (fun _ => 0)) (rnat a)
+  /\ elems (b_sum Rops a [b_zeros Rops a]) = elems a /\ bmeta (b_sum Rops a [b_zeros Rops a]) = bmeta a.
+Proof.
+  intros [F V].
+  assert (Z : rnat (b_zeros Rops a) = map (fun u => vscale Rops 0 (vscale Rops 0 u)) (rnat a)).
+  { unfold b_zeros. rewrite F. unfold b_pow, is_fixed. cbn [fam family_eqb]. unfold nat_of. cbn [fam elems].
+    rewrite !map_map. apply map_ext. intro u. reflexivity. }
+  repeat split.
+  - unfold b_zeros. rewrite F. reflexivity.
+  - apply b_zeros_bmeta.
+  - rewrite Z. apply map_ext. intro u. induction u as [|x u IH]; cbn; [reflexivity|]. f_equal; [ring | exact IH].
+  - unfold b_sum. rewrite (normal_not_fixed a F). cbn [elems fold_left]. rewrite Z, F.
+    assert (E : map2 (vadd Rops) (rnat a) (map (fun u => vscale Rops 0 (vscale Rops 0 u)) (rnat a)) = rnat a).
+    { generalize (rnat a). induction l as [|u x IH]; cbn [map map2]; [reflexivity|]. f_equal; [apply vadd_zero_zero_R | exact IH]. }
+    rewrite E. unfold nat_of. rewrite F. apply elems_back_R. exact V.
+  - apply b_sum_bmeta.
+Qed.
+
+(* ------------------------------------------------------------------ *)
+(* AbstractMessage.project end to end for one element of a normal message: the weights exp(lw - max lw) give the
+   same statistics as exp(lw) (invariance under the stabilising shift), the projected member has the weighted
+   mean and second moment of the samples, and log_norm is the log of the mean weight *)
+Notation rseqsum := (seqsum Rops).
+
+Lemma fold_add_acc_R (l : list R) (acc : R) : fold_left Rplus l acc = acc + fold_left Rplus l 0.
+Proof.
+  revert acc. induction l as [|x l IH]; intro acc; cbn; [ring|]. rewrite (IH (acc + x)), (IH (0 + x)). ring.
+Qed.
+Lemma rseqsum_cons (x : R) (l : list R) : rseqsum (x :: l) = x + rseqsum l.
+Proof. unfold seqsum. cbn. rewrite fold_add_acc_R. ring. Qed.
+Lemma rseqsum_nil : rseqsum [] = 0.
+Proof. reflexivity. Qed.
+
+Lemma rseqsum_scale (l : list R) (k : R) : rseqsum (map (fun x => x * k) l) = rseqsum l * k.
+Proof. induction l as [|x l IH]; [cbn; unfold seqsum; cbn; ring|]. cbn [map]. rewrite !rseqsum_cons, IH. ring. Qed.
+
+Lemma rseqsum_map2_scale (t l : list R) (k : R) :
+  rseqsum (map2 Rmult t (map (fun x => x * k) l)) = rseqsum (map2 Rmult t l) * k.
+Proof.
+  revert l. induction t as [|y t IH]; intros [|x l]; cbn [map map2]; rewrite ?rseqsum_nil; try ring.
+  rewrite !rseqsum_cons, IH. ring.
+Qed.
+
+Lemma rseqsum_pos (l : list R) : l <> [] -> Forall (fun x => 0 < x) l -> 0 < rseqsum l.
+Proof.
+  intros N H. induction H as [|x l Hx H IH]; [congruence|]. rewrite rseqsum_cons.
+  destruct l as [|y l]; [rewrite rseqsum_nil; lra|]. assert (0 < rseqsum (y :: l)) by (apply IH; congruence). lra.
+Qed.
+
+Lemma map2_map_length_R (t w : list R) (g : R -> R) : length t = length w -> length (map2 Rmult t (map g w)) = length w.
+Proof. revert w. induction t as [|x t IH]; intros [|y w] H; cbn in *; try discriminate; auto. Qed.
+
+(* statistic for weights w rescaled to mean one = weighted average *)
+Lemma wstat_weighted_mean_R (t w : list R) : length t = length w -> w <> [] -> 0 < rseqsum w ->
+  wstat Rops t (fst (norm_weights Rops w)) = rseqsum (map2 Rmult t w) / rseqsum w.
+Proof.
+  intros L N P. unfold wstat, norm_weights, mean. cbn [fst omul odiv oofnat Rops RopsP].
+  assert (Hn : 0 < INR (length w)) by (destruct w; [congruence | apply lt_0_INR; cbn; lia]).
+  replace (map (fun x => x / (rseqsum w / INR (length w))) w) with (map (fun x => x * (INR (length w) / rseqsum w)) w)
+    by (apply map_ext; intro x; field; split; lra).
+  rewrite map2_map_length_R by exact L. rewrite rseqsum_map2_scale. field. split; lra.
+Qed.
+
+Definition expw (lws : list R) : list R := map exp lws.
+
+Lemma proj_weights_shift (lws : list R) : lws <> [] ->
+  let '(w', norm, wmax) := proj_weights Rops lws in
+  w' = fst (norm_weights Rops (map (fun e => e * exp (- wmax)) (expw lws)))
+  /\ norm = rseqsum (expw lws) * exp (- wmax) / INR (length lws).
+Proof.
+  intro N. unfold proj_weights. cbn [oexp osub omax Rops RopsP].
+  set (M := fold_left Rmax (tl lws) (hd 0 lws)).
+  assert (E : map (fun l => exp (l - M)) lws = map (fun e => e * exp (- M)) (expw lws)).
+  { unfold expw. rewrite map_map. apply map_ext. intro l. unfold Rminus. apply exp_plus. }
+  rewrite E. unfold norm_weights. cbn [fst]. split; [reflexivity|].
+  unfold mean. cbn [odiv oofnat Rops RopsP]. rewrite rseqsum_scale, !map_length. reflexivity.
+Qed.
+
+Lemma normal_proj_col (xs lws : list R) : length xs = length lws -> lws <> [] ->
+  let W := rseqsum (expw lws) in
+  let m1 := rseqsum (map2 Rmult xs (expw lws)) / W in
+  let m2 := rseqsum (map2 Rmult (map (fun x => x * x) xs) (expw lws)) / W in
+  m1 * m1 < m2 ->
+  exists sg, proj_col Rops FNormal xs lws = ([m1; sg], ln (W / INR (length lws)))
+             /\ 0 < sg /\ sg * sg + m1 * m1 = m2.
+Proof.
+  intros L N W m1 m2 Hm.
+  assert (PE : Forall (fun x => 0 < x) (expw lws)) by (unfold expw; apply Forall_forall; intros x Hx; apply in_map_iff in Hx; destruct Hx as [l [<- _]]; apply exp_pos).
+  assert (NE : expw lws <> []) by (unfold expw; destruct lws; [congruence | discriminate]).
+  assert (PW : 0 < W) by (apply rseqsum_pos; assumption).
+  pose proof (proj_weights_shift lws N) as S.
+  unfold proj_col, suff_stats. destruct (proj_weights Rops lws) as [[w' norm] wmax] eqn:PWs. destruct S as [Sw Sn].
+  cbn [fst]. set (k := exp (- wmax)) in *. assert (Pk : 0 < k) by apply exp_pos.
+  set (ws := map (fun e => e * k) (expw lws)) in *.
+  assert (Lw : length (expw lws) = length lws) by (unfold expw; apply map_length).
+  assert (Pws : 0 < rseqsum ws) by (unfold ws; rewrite rseqsum_scale; apply Rmult_lt_0_compat; assumption).
+  assert (Nws : ws <> []) by (unfold ws; destruct (expw lws); [congruence | discriminate]).
+  assert (St : forall t, length t = length lws -> wstat Rops t w' = rseqsum (map2 Rmult t (expw lws)) / W).
+  { intros t Lt. rewrite Sw. rewrite wstat_weighted_mean_R; [| unfold ws; rewrite map_length, Lw; exact Lt | exact Nws | exact Pws].
+    unfold ws. rewrite rseqsum_map2_scale, rseqsum_scale. fold W. field. split; lra. }
+  cbn [canon map]. rewrite (St xs L), (St (map (fun x => omul Rops x x) xs)) by (rewrite map_length; exact L).
+  cbn [omul Rops RopsP]. fold m1 m2.
+  destruct (normal_moment_match m1 m2 Hm) as (sg & E & Psg & Q).
+  exists sg. split; [|split; assumption]. f_equal; [exact E|].
+  cbn [oadd olog Rops RopsP]. rewrite Sn. fold W k.
+  replace (W * k / INR (length lws)) with ((W / INR (length lws)) * k) by (unfold Rdiv; ring).
+  assert (Hn : 0 < INR (length lws)) by (destruct lws; [congruence | apply lt_0_INR; cbn; lia]).
+  rewrite ln_mult; [| apply Rdiv_lt_0_compat; assumption | exact Pk]. unfold k. rewrite ln_exp. ring.
+Qed.
+
+(* gamma moment matching under the assumption that invpsilog inverts psi(x) - ln x (a library function; its
+   accuracy is checked numerically against an independent root finder): the projected member reproduces the
+   statistics (E ln x, E x) it was given *)
+Section GammaProject.
+  Variables (psi invpl : R -> R).
+  Hypothesis invpl_inverts : forall c, c < 0 -> psi (invpl c) - ln (invpl c) = c /\ 0 < invpl c.
+  Definition RopsG : ops R :=
+    mkops R Rplus Rminus Rmult Rdiv Ropp sqrt (fun x => x * x) 0 1 2 (1 / 2)
+          ln exp (fun x => ln (1 + x)) Rmax INR invpl (fun a b => (a, b))
+          10 (fun x => ln x / ln 10) (fun x => x) (fun x => x)
+          4 (- (1 / 2) * ln (2 * PI)) (fun x => x) (fun a _ => a) (fun x => x).
+
+  (* a Gamma(alpha, beta) member has E ln x = psi(alpha) - ln beta and E x = alpha / beta *)
+  Lemma gamma_moment_match (lx x : R) : 0 < x -> lx < ln x ->
+    exists alpha beta, of_nat RopsG FGamma (from_suff RopsG FGamma [lx; x]) = [alpha; beta]
+      /\ 0 < alpha /\ 0 < beta /\ psi alpha - ln beta = lx /\ alpha / beta = x.
+  Proof.
+    intros Px Hl. destruct (invpl_inverts (lx - ln x) ltac:(lra)) as [I Pa].
+    set (alpha := invpl (lx - ln x)) in *.
+    exists alpha, (alpha / x). cbn. fold alpha. repeat split.
+    - f_equal; [ring | f_equal; ring].
+    - exact Pa.
+    - apply Rdiv_lt_0_compat; assumption.
+    - unfold Rdiv. rewrite ln_mult by (try apply Rinv_0_lt_compat; assumption). rewrite ln_Rinv by exact Px. lra.
+    - field. split; lra.
+  Qed.
+End GammaProject.
